@@ -1078,7 +1078,9 @@ class Frame:
         key = keys[0] if len(keys) == 1 else ('nest', tuple(keys))
         if cond == TRUE:
             return ('map', key, elt)
-        return ('filtermap', key, cond, elt)
+        fm = ('filtermap', key, cond, elt)
+        ps = T.parity_slice(fm)
+        return ps if ps is not None else fm
 
     def literal_items(self, it_node):
         """elements of a short literal sequence (list/tuple display, keys of a known table, constant range), else None"""
